@@ -319,7 +319,8 @@ func (u *upstream) serveHTTP1(c net.Conn, id int64) {
 		}
 		switch a.final {
 		case "stall":
-			<-u.stop
+			// hold the exchange open, but notice the peer closing the connection
+			_, _ = io.Copy(io.Discard, c)
 			return
 		case "close":
 			return
